@@ -162,13 +162,58 @@ func (e *Variable) SetGrlText(grlText string) {
 	e.GrlText = grlText
 }
 
+// accessPath spells the location this variable denotes, component by component: the root name, ".f" for a member or
+// a literal string key, "[i]" for a literal integer index, "*" for any other selector.
+func (e *Variable) accessPath() []string {
+	if e.Variable == nil {
+
+		return []string{e.Name}
+	}
+	path := e.Variable.accessPath()
+	if e.ArrayMapSelector == nil {
+
+		return append(path, "."+e.Name)
+	}
+	if e.ArrayMapSelector.isLiteral() {
+		constant := e.ArrayMapSelector.Expression.ExpressionAtom.Constant
+		if !constant.IsNil && constant.Value.IsValid() {
+			switch constant.Value.Kind() {
+			case reflect.String:
+
+				return append(path, "."+constant.Value.String())
+			case reflect.Int, reflect.Int8, reflect.Int16, reflect.Int32, reflect.Int64:
+
+				return append(path, fmt.Sprintf("[%d]", constant.Value.Int()))
+			}
+		}
+	}
+
+	return append(path, "*")
+}
+
+// pathsMayMeet tells whether two access paths may denote the same location.
+func pathsMayMeet(left, right []string) bool {
+	if len(left) != len(right) {
+
+		return false
+	}
+	for i := range left {
+		if left[i] != right[i] && left[i] != "*" && right[i] != "*" {
+
+			return false
+		}
+	}
+
+	return true
+}
+
 // Assign will assign the specified value to the variable
 func (e *Variable) Assign(newVal reflect.Value, dataContext IDataContext, memory *WorkingMemory) error {
 	if len(e.Name) > 0 && e.Variable == nil {
 		err := dataContext.Add(e.Name, pkg.ValueToInterface(newVal))
 		if err == nil {
 			dataContext.IncrementVariableChangeCount()
-			memory.ResetVariable(e)
+			memory.ResetAssigned(e)
 		}
 
 		return err
@@ -181,7 +226,7 @@ func (e *Variable) Assign(newVal reflect.Value, dataContext IDataContext, memory
 		err = e.Variable.ValueNode.SetObjectValueByField(e.Name, newVal)
 		if err == nil {
 			dataContext.IncrementVariableChangeCount()
-			memory.ResetVariable(e)
+			memory.ResetAssigned(e)
 		}
 
 		return err
@@ -200,7 +245,7 @@ func (e *Variable) Assign(newVal reflect.Value, dataContext IDataContext, memory
 		if e.Variable.ValueNode.IsArray() {
 			err := e.Variable.ValueNode.SetArrayValueAt(int(e.ArrayMapSelector.Value.Int()), newVal)
 			if err == nil {
-				memory.ResetElement(e)
+				memory.ResetAssigned(e)
 			}
 
 			return err
@@ -208,7 +253,7 @@ func (e *Variable) Assign(newVal reflect.Value, dataContext IDataContext, memory
 		if e.Variable.ValueNode.IsMap() {
 			err := e.Variable.ValueNode.SetMapValueAt(e.ArrayMapSelector.Value, newVal)
 			if err == nil {
-				memory.ResetElement(e)
+				memory.ResetAssigned(e)
 			}
 
 			return err
